@@ -112,6 +112,10 @@ def encrypt(T, sc, wd, env=None):
     else:
         out = name + ".ascon"
         argv = [T["asconcrypt"]] + pw_args(sc, wd) + [name]
+    if env is None and sc["cseed"] % 3 == 1:
+        # the output name already exists and holds something longer (an older version of the file)
+        with open(os.path.join(wd, out), "wb") as f:
+            f.write(b"\x5a" * (len(data) + HDR + 4321))
     rc, so, se = runp(argv, wd, env)
     p = os.path.join(wd, out)
     return rc, se, (p if os.path.exists(p) else None)
@@ -130,6 +134,9 @@ def decrypt(T, sc, wd, encbytes, env=None, password=None):
     po = os.path.join(wd, out)
     if os.path.exists(po):
         os.remove(po)
+    if env is None and password is None and sc["cseed"] % 3 == 2:
+        with open(po, "wb") as f:                 # an older, longer file under the output name
+            f.write(b"\xa5" * (len(encbytes) + 4321))
     rc, so, se = runp(argv, wd, env)
     data = None
     if os.path.exists(po):
